@@ -10,6 +10,7 @@ from vlib.obs import Err, Abort, guarded, canon_exc, gz, gzlist, gbool, gopt, gl
 from ref import block_server as bs
 
 PROP = "C12"
+ANCHORS = [('canopen.sdo.client', 'BlockDownloadStream'), ('canopen.sdo.client', 'SdoClient.request_response'), ('canopen.sdo.client', 'SdoClient.read_response'), ('canopen.sdo.base', 'CrcXmodem')]
 MODEL_VO = ["theories/Model/BlockDl.vo"]
 COQ_IMPORTS = "From CV Require Import Model.Crc Model.RefBlockServer Model.BlockDl."
 COQ_RUN = "run_blockdl"
